@@ -213,7 +213,7 @@ func (l *Lexer) scanAccount() Token {
 				break
 			}
 			l.pos += size
-			l.column++
+			l.column += utf16Width(r)
 			continue
 		}
 
@@ -222,7 +222,7 @@ func (l *Lexer) scanAccount() Token {
 		}
 
 		l.pos += size
-		l.column++
+		l.column += utf16Width(r)
 		lastNonSpace = l.pos
 	}
 
@@ -288,7 +288,7 @@ func (l *Lexer) scanCurrencySymbol() Token {
 	startPos := l.position()
 	r, size := utf8.DecodeRuneInString(l.input[l.pos:])
 	l.pos += size
-	l.column++
+	l.column += utf16Width(r)
 	return Token{Type: TokenCommodity, Value: string(r), Pos: startPos, End: l.position()}
 }
 
@@ -436,10 +436,31 @@ func (l *Lexer) peekRune() rune {
 
 func (l *Lexer) advance() {
 	if l.pos < len(l.input) {
-		_, size := utf8.DecodeRuneInString(l.input[l.pos:])
+		r, size := utf8.DecodeRuneInString(l.input[l.pos:])
 		l.pos += size
-		l.column++
+		l.column += utf16Width(r)
 	}
+}
+
+// utf16Width returns the number of UTF-16 code units r occupies. Columns count
+// UTF-16 code units, the unit LSP positions are expressed in, so that a column
+// can be handed to the client as it is: counting characters instead would put
+// every position after an emoji (or any other character outside the Basic
+// Multilingual Plane) one unit too far left.
+func utf16Width(r rune) int {
+	if r >= 0x10000 {
+		return 2
+	}
+	return 1
+}
+
+// utf16Len returns the length of s in UTF-16 code units.
+func utf16Len(s string) int {
+	n := 0
+	for _, r := range s {
+		n += utf16Width(r)
+	}
+	return n
 }
 
 func (l *Lexer) skipSpaces() {
